@@ -51,6 +51,7 @@ type interpreter struct {
 	decSites           map[string]int
 	stubsUsed          map[string]bool
 	base               solverBase
+	uniq               map[string]*value
 }
 
 // notHandled is returned by an intercept that declines (the body is interpreted instead).
